@@ -247,6 +247,25 @@ class ExcFlow(object):
                     'round', 'len', 'mktime', 'int', 'float', 'abs', 'min',
                     'max', 'total_seconds', 'time'):
                 return []
+            if isinstance(a, ast.Name) and f.name == 'validate_native':
+                # validate_native receives a native number, not text; int()
+                # of a number fails for NaN/infinity only, and those are
+                # refused by the parent's range test that precedes in the
+                # same conjunction (it answers False for unordered and
+                # unbounded values before int() is evaluated).
+                p, child = parent(call), call
+                while p is not None and p is not f.node:
+                    if isinstance(p, ast.BoolOp) and isinstance(
+                            p.op, ast.And):
+                        idx = next((i for i, v in enumerate(p.values)
+                                    if v is child), None)
+                        if idx and any(
+                                isinstance(c, ast.Call) and
+                                call_name(c) == 'validate_native'
+                                for v in p.values[:idx]
+                                for c in ast.walk(v)):
+                            return []
+                    p, child = parent(p), p
             if isinstance(a, ast.Name):
                 # guarded by a membership test in a tuple of constants
                 from .flow import guards_at, flatten_guards
@@ -281,6 +300,9 @@ class ExcFlow(object):
                                          'round'))]
                 if len(srcs) == 1 and a.id not in f.params():
                     a = srcs[0]
+            if self._from_digit_findall(f, a):
+                self.stats['dropped_by_regex'] += 1
+                return []
             gs = self.group_source(f, a, loopvars)
             if gs is not None:
                 pats, names = gs
@@ -316,6 +338,19 @@ class ExcFlow(object):
             return ['binascii.Error']  # text domain
         if nm == 'decode' and isinstance(call.func, ast.Attribute) and \
                 not isinstance(call.func.value, ast.Constant):
+            recv = call.func.value
+            if isinstance(recv, ast.Name):
+                defs = [n.value for n in walk_no_defs(f.node)
+                        if isinstance(n, ast.Assign) and any(
+                            isinstance(t, ast.Name) and t.id == recv.id
+                            for t in n.targets)]
+                # the type name of a model class is not request data
+                base = [d for d in defs if not (isinstance(d, ast.Call) and
+                                                call_name(d) == 'decode')]
+                if base and all(isinstance(d, ast.Call) and call_name(d) in (
+                        'get_type_name', 'get_class_name', 'get_namespace')
+                        for d in base):
+                    return []
             out = ['UnicodeDecodeError']
             # a codec name that is a local/parameter may come from the
             # request (Content-Type charset): unknown codec -> LookupError
@@ -360,6 +395,43 @@ class ExcFlow(object):
                                    target.startswith('msgpack')):
             return ['ValueError']
         return None
+
+    def _from_digit_findall(self, f, a):
+        """int(E) where E takes an element out of PATTERN.findall(...) (also
+        through deque(...)) and the pattern's only group admits digits only."""
+        base = None
+        if isinstance(a, ast.Call) and isinstance(a.func, ast.Attribute) and \
+                a.func.attr in ('popleft', 'pop') and isinstance(
+                a.func.value, ast.Name):
+            base = a.func.value.id
+        elif isinstance(a, ast.Subscript) and isinstance(a.value, ast.Name):
+            base = a.value.id
+        if base is None:
+            return False
+        defs = [n.value for n in walk_no_defs(f.node)
+                if isinstance(n, ast.Assign) and any(
+                    isinstance(t, ast.Name) and t.id == base
+                    for t in n.targets)]
+        if not defs:
+            return False
+        for d in defs:
+            inner = d
+            if isinstance(inner, ast.Call) and call_name(inner) in (
+                    'deque', 'list', 'tuple') and inner.args:
+                inner = inner.args[0]
+            if not (isinstance(inner, ast.Call) and isinstance(
+                    inner.func, ast.Attribute) and
+                    inner.func.attr == 'findall'):
+                return False
+            pats = self.patterns_of(f, inner.func.value)
+            if not pats:
+                return False
+            for ptn in pats:
+                groups = re.findall(r'\((?!\?)([^()]*)\)', ptn)
+                if len(groups) != 1 or not re.match(
+                        r'^(\\d|\[0-9\])(\+|\{\d+(,\d*)?\})$', groups[0]):
+                    return False
+        return True
 
     def _bytes_typed(self, f, a):
         if a is None:
